@@ -12,6 +12,8 @@ MANIFEST = {
 		'or exhibits a SHA3 collision, hex-prefix path encoding (definition, injectivity), parse(serialize nodes) = nodes, and the verdict of '
 		'prove_patricia_merkle on all inputs with iff-characterisations of the positive / negative / inconclusive verdicts, and the verdict '
 		'the tree implies for every proof cut from a tree along the key (branches with non-empty paths included).  '
+		'Added: the shape of the tree as equations between roots (merkle_root_of_pair, merkle_root_of_balanced_halves for every k, '
+		'merkle_root_odd_duplicates_last, merkle_pairing_is_local, merkle_loop_of_balanced_halves).  '
 		'Digest inequality after a covered bit flip is collision resistance of SHA3 and is not a theorem.  '
 		'Model and implementation are compared on seeded inputs for every function; corpus cases (past findings) run first.',
 	'design_ref': 'DESIGN.md section 4, C09',
